@@ -121,6 +121,8 @@ class Database:
         return obj
 
     def add_sticky_note(self, obj: StickyNote) -> StickyNote:
+        if obj in self.sticky_notes:
+            raise DatabaseValidationError(f'{obj} is already in the database.')
         self._set_database(obj)
         self.sticky_notes.append(obj)
         return obj
